@@ -17,7 +17,9 @@ STYLES = ["camelCase", "PascalCase", "kebab-case", "snake_case", "SCREAMING_SNAK
           "camel_case", "snek_case", "kebab_case", "shouty_snake_case", "shouty_snek_case"]
 SPELLINGS = ["blue", "Blue", "BLUE", "b", "dark-red", "Dark Red", "r3d", "42", "", " pad ", "é", "É", "straße", "STRASSE",
              "K", "k", "i", "I", "ss", "s", "naïve", "NAÏVE", "x_y", "X-Y", "a.b", "A.B", "long-spelling-here", "q", "Q!",
-             "日本", "ﬁ", "fi", "tab\there", "quote\"d", "back\\slash", "ab", "aB", "abc", "ABCD", "abcde"]
+             "日本", "ﬁ", "fi", "tab\there", "quote\"d", "back\\slash", "ab", "aB", "abc", "ABCD", "abcde",
+             # first bytes next to the letters in the ASCII table, and bit-5 partners of punctuation
+             "[if]", "[Go]", "@home", "`tick", "_under", "|pipe", "\\bs", "~t", "^t"]
 FIELD_TYPES = ["u8", "i32", "bool", "String", "usize", "Option<u8>", "Tick"]
 
 
@@ -158,7 +160,7 @@ def string_enum(rng, nvariants=None, *, allow_default=True, allow_disabled=True,
         # how a literal is WRITTEN does not matter, only what it denotes: some are spelled with \u{..} escapes or as raw strings
         for m in ms:
             if m.kind in ("ser", "tos") and rng.random() < 0.2:
-                m.style = rng.choice(["uesc", "raw"])
+                m.style = rng.choice(["uesc", "raw", "xesc"])
         rng.shuffle(ms)
         v.metas = ms
         if len(ms) >= 2 and rng.random() < 0.4:
@@ -284,6 +286,11 @@ def fromstr_inputs(it: Item, info, rng, flipcap=32, nrandom=8):
             put(" " + sp, "near-pad")
             put(sp + " ", "near-pad")
             put(sp + "\n", "near-pad")
+            # NUL padding (a spelling packed into a fixed-size word must not equal the spelling followed by NUL bytes)
+            put(sp + "\0", "near-pad")
+            if len(sp.encode()) < 8:
+                put(sp + "\0" * (8 - len(sp.encode())), "near-pad")
+            put("\0" + sp, "near-pad")
         ident = it.variants[vi].ident
         if ident.startswith("r#"):
             put(ident, "near-ident")        # the raw spelling of a raw identifier is NOT its name
